@@ -18,17 +18,20 @@ NAMED_MAX = 1 << 16      # interned names available to the history: $n0 .. $n655
 
 LANGS = {
     'Lf': {'f': ('F', 'ss'), 'g': ('G', 'ss'), 'h': ('H', 'sss'), 'w': ('W', 'ssss')},
+    'Lm': {'mvar': ('MVar', 's'), 'madd': ('MAdd', 'cc'), 'mmul': ('MMul', 'cc'), 'msum': ('MSum', 'bc'), 'mlet': ('MLet', 'bcc')},
     'Lb': {'var': ('Var', 's'), 'app': ('App', 'cc'), 'lam': ('Lam', 'bc'), 'k': ('K', 'ss'), 'u': ('U', 'c'), 'j': ('J', 'ss'), 't3': ('T3', 'sss'), 's3': ('S3', 'sss'), 'm3': ('M3', 'sss'), 'at': ('At', 'sc')},
 }
 
 class Template:
-    def __init__(self, name, lang, nnames, ops, analysis='()', distinct=None, note='', group=None, late=None):
+    def __init__(self, name, lang, nnames, ops, analysis='()', distinct=None, note='', group=None, late=None, subst_method=None, model=False):
+        self.subst_method = subst_method      # None = EGraph::new (SynExprSubst); 'ExtractionSubst' / 'SynExprSubst' = EGraph::with_subst_method::<..>
+        self.model = model                    # C03: every snapshot carries a dump of all classes (enodes_applied), judged by the model evaluator
         self.name, self.lang, self.nnames, self.ops, self.analysis, self.note = name, lang, nnames, ops, analysis, note
         self.group = group        # templates of one group are reorderings of the same history (C12)
         self.light = False        # light = EGraph::check() and the enode consistency walk only after the last operation
         self.late = late or {}    # name index -> op index at which the name is first written by the user (pattern slots): it may equal any slot issued before that point
         self.distinct = distinct      # optional list of name-index groups assumed pairwise distinct (tied-name variants)
-    def key(self): return json.dumps([self.name, self.lang, self.nnames, self.ops, self.analysis, self.distinct, sorted(self.late.items()), self.light], sort_keys=True, default=list)
+    def key(self): return json.dumps([self.name, self.lang, self.nnames, self.ops, self.analysis, self.distinct, sorted(self.late.items()), self.light] + ([self.subst_method, self.model] if (self.subst_method or self.model) else []), sort_keys=True, default=list)
     def terms(self):
         """all (sub)terms that get a handle, in order of first insertion"""
         out = []
@@ -69,6 +72,10 @@ def _m_parse_patstr(ex, c, args, m):
     if isinstance(a, PatStr): return ok(cp(a.pat))
     return NotImplemented
 
+@_M.add(r'^<str as ToString>::to_string$|^<&str as ToString>::to_string$|^<str as ToOwned>::to_owned$|^core::str::<impl str>::to_string$', front=True, first=True)
+def _m_patstr_to_string(ex, c, args, m):
+    return PyStr('<pattern text>') if isinstance(dd(args[0]), PatStr) else NotImplemented
+
 class SymRun:
     """executes a template on an executor; collects snapshots"""
     def __init__(self, ex, tmpl, opts=None):
@@ -95,7 +102,11 @@ class SymRun:
             for grp in self.t.distinct: ex.assume(z3.Distinct(*[self.N[i] for i in grp]))
         for c in self.opts.get('assume', lambda N: [])(self.N): ex.assume(c)
         analysis = Unit() if self.t.analysis == '()' else Struct({}, self.t.analysis)
-        self.eg = {'eg': ex.call(self.M('EGraph::new'), [analysis])}
+        sm = getattr(self.t, 'subst_method', None)
+        if sm:
+            self.R.tymap['S'] = sm
+            self.eg = {'eg': ex.call(self.M('EGraph::with_subst_method'), [analysis])}
+        else: self.eg = {'eg': ex.call(self.M('EGraph::new'), [analysis])}
         self.egref = Ref(self.eg, 'eg')
 
     # ---- term construction
@@ -218,6 +229,8 @@ class SymRun:
     def pat_value(self, p):
         E = self.S.enums
         if isinstance(p, str): return Enum(E['Pattern::PVar'], Struct({0: PyStr(p[1:])}), 'Pattern')
+        if p[0] == 'subst':      # b[x := t]
+            return Enum(E['Pattern::Subst'], Struct({0: boxed(self.pat_value(p[1])), 1: boxed(self.pat_value(p[2])), 2: boxed(self.pat_value(p[3]))}), 'Pattern')
         vname, sig = self.variants[p[0]]
         fields = {}; kids = []; i = 1; fi = 0; pending = None
         for kind in sig:
@@ -232,6 +245,10 @@ class SymRun:
         node = Enum(E[self.lang + '::' + vname], Struct(fields), self.lang)
         return Enum(E['Pattern::ENode'], Struct({0: node, 1: VecVal(kids)}), 'Pattern')
     def mk_rewrite(self, rule):
+        if rule[0] == 'rule_if':       # conditional rule; the condition is a closure of the harness crate
+            _, name, lhs, rhs, cond, carg = rule
+            c = self.ex.call(self.M(cond), [slot(self.N[carg])])
+            return self.ex.call(self.M('Rewrite::new_if'), [PyStr(name), PatStr(self.pat_value(lhs)), PatStr(self.pat_value(rhs)), c])
         _, name, lhs, rhs = rule
         return self.ex.call(self.M('Rewrite::new'), [PyStr(name), PatStr(self.pat_value(lhs)), PatStr(self.pat_value(rhs))])
     def lookup_pattern(self, p, sub):
@@ -288,6 +305,20 @@ class SymRun:
             if kind == 's': out.append(node.payload.f[fi].f[0]); fi += 1
             elif kind == 'b': out.append(node.payload.f[fi].f[0].f[0])
             else: out.append(self.describe_rec(kids.pop(0))); fi += 1
+        return out
+
+    def describe_node(self, node):
+        """e-node value -> [op, slot value | {'id', 'map': [[key, value]...]} ...] (binder slot before its child)"""
+        rev = {v: k.split('::')[1] for k, v in self.S.enums.items() if k.startswith(self.lang + '::')}
+        vname = rev[node.disc]; op = next(o for o, (vn, _) in self.variants.items() if vn == vname)
+        def aid(a): return {'id': conc(a.f[0].f[0]), 'map': [[q.f[0].f[0], q.f[1].f[0]] for q in a.f[1].f[0].items]}
+        out = [op]; fi = 0; bind = False
+        for kind in self.variants[op][1]:
+            if kind == 's': out.append(node.payload.f[fi].f[0]); fi += 1
+            elif kind == 'b': out.append(node.payload.f[fi].f[0].f[0]); bind = True
+            else:
+                v = node.payload.f[fi]; fi += 1
+                out.append(aid(v.f[1]) if bind else aid(v)); bind = False
         return out
 
     def describe_handle(self, h):
@@ -353,6 +384,14 @@ class SymRun:
                     acc = v if acc is None else ex.call_callee('<N as analysis::Analysis<L>>::merge', [acc, v])
                 cls[i]['data_fix'] = None if acc is None else conc(acc)
         snap['classes'] = cls
+        if self.t.model:
+            dump = {}
+            for i in live:
+                idv = Struct({0: U64(i)}, 'Id')
+                ident = {'a': ex.call(self.M('EGraph::mk_identity_applied_id'), [self.egref, idv])}
+                nodes = ex.call(self.M('EGraph::enodes_applied'), [self.egref, Ref(ident, 'a')])
+                dump[i] = {'slots': [q.f[1].f[0] for q in ident['a'].f[1].f[0].items], 'nodes': [self.describe_node(n) for n in nodes.items]}
+            snap['dump'] = dump
         if self.opts.get('check', True) and (not self.t.light or len(self.snaps) == len(self.t.ops)):
             snap['check'] = self.run_check()
         if getattr(self, 'extra', None): snap.update(self.extra); self.extra = None
@@ -441,6 +480,8 @@ def norm_fresh(v):
     """slots invented by the crate are reported as 'fresh' (their numbers depend on the counter)"""
     return 'fresh' if v.startswith('x') else v
 
+def norm_slot_label(v): return v
+
 def concretize(run, ex):
     """one record per coincidence pattern admitted by the finished path"""
     recs = []
@@ -461,6 +502,10 @@ def concretize(run, ex):
                 st['readd'] = dict(st['readd'])
                 for kk in ('ret_vals', 'lk_vals'):
                     if st['readd'].get(kk) is not None: st['readd'][kk] = sorted(str(name_of_value_(v, N, vals, model)) for v in st['readd'][kk])
+            if 'dump' in st:
+                def lab(v): return norm_slot_label(str(name_of_value_(v, N, vals, model)))
+                def dn(n): return [n[0]] + [({'id': a['id'], 'map': [[lab(k), lab(v)] for k, v in a['map']]} if isinstance(a, dict) else lab(a)) for a in n[1:]]
+                st['dump'] = {str(k): {'slots': [lab(x) for x in c['slots']], 'nodes': [dn(n) for n in c['nodes']]} for k, c in st['dump'].items()}
             if 'extract' in st:
                 def dt(t): return [t[0]] + [dt(a) if isinstance(a, list) else norm_fresh(str(name_of_value_(a, N, vals, model))) for a in t[1:]]
                 st['extract'] = dict(st['extract']); st['extract']['term'] = dt(st['extract']['term'])
